@@ -96,6 +96,25 @@ func installVx(ex *Exec) {
 	E[p+"Int32"] = mkInt(32)
 	E[p+"Rune"] = mkInt(32)
 	E[p+"Uint8"] = mkInt(8)
+	// IntIn(tag, lo, hi): a symbolic int in [lo,hi] built from a narrow
+	// variable, so that the term carries its range syntactically
+	E[p+"IntIn"] = func(ex *Exec, fr *frame, a []Value) Value {
+		tag := ex.concreteStr(a[0], "tag")
+		lo := int64(ex.concreteInt(a[1].(*sym.Term), "lo"))
+		hi := int64(ex.concreteInt(a[2].(*sym.Term), "hi"))
+		w := 64
+		switch {
+		case lo >= -128 && hi <= 127:
+			w = 8
+		case lo >= -32768 && hi <= 32767:
+			w = 16
+		case lo >= -1<<31 && hi <= 1<<31-1:
+			w = 32
+		}
+		v := ex.NewInput(tag, sym.BV(w))
+		ex.assume(c.And(c.Cmp(sym.OSLe, c.Const(sym.BV(w), uint64(lo)), v), c.Cmp(sym.OSLe, v, c.Const(sym.BV(w), uint64(hi)))))
+		return c.SExt(v, 64)
+	}
 	E[p+"Bool"] = func(ex *Exec, fr *frame, a []Value) Value {
 		return ex.NewInput(ex.concreteStr(a[0], "tag"), sym.Bool)
 	}
@@ -158,7 +177,14 @@ func installVx(ex *Exec) {
 	}
 	E[p+"Key"] = func(ex *Exec, fr *frame, a []Value) Value {
 		k := ex.concreteStr(a[0], "key")
-		ex.res.Keys = append(ex.res.Keys, KV{k, ex.keyString(a[1])})
+		v := ex.keyString(a[1])
+		for i := range ex.res.Keys {
+			if ex.res.Keys[i].K == k {
+				ex.res.Keys[i].V = v
+				return nil
+			}
+		}
+		ex.res.Keys = append(ex.res.Keys, KV{k, v})
 		return nil
 	}
 	E[p+"And"] = func(ex *Exec, fr *frame, a []Value) Value { return c.And(a[0].(*sym.Term), a[1].(*sym.Term)) }
